@@ -69,10 +69,107 @@ def prelude_fields(F):
     return [f[0] for f in st[0]["fields"]]
 
 
+def resolve(e, body, depth=0):
+    """field chain of an expression with `let`-bound locals replaced by their initialiser's chain"""
+    ch = field_chain(e)
+    if len(ch) == 1 and e["k"] == "Path" and depth < 4:
+        nm = ch[0]
+        for x in walk(body):
+            if x["k"] == "Let" and x["pat"]["k"] == "PBind" and x["pat"]["name"] == nm and "init" in x:
+                return resolve(x["init"], body, depth + 1)
+    return ch
+
+
+# where each saved value comes from (writers that save machine state; the stub writes constants)
+WRITER_SOURCES = {
+    "num_cells": ["machine_st", "num_of_args"],
+    "e": ["machine_st", "e"],
+    "cp": ["machine_st", "cp"],
+    "b": ["machine_st", "b"],
+    "tr": ["machine_st", "tr"],
+    "b0": ["machine_st", "b0"],
+    "h": ["heap", "cell_len()"],
+    "attr_var_queue_len": ["attr_var_queue", "len()"],
+}
+# machine register <- saved field, for every resumption
+RESTORE_SOURCES = {
+    "num_of_args": "num_cells",
+    "e": "e",
+    "cp": "cp",
+    "tr": "tr",
+    "hb": "h",
+}
+
+
+def check_sources(F, R, prefix):
+    """The values saved are the machine's current ones, and each register is restored from the field it was saved in."""
+    n = 0
+    for w in ("try_me_else", "indexed_try"):
+        fn = F.find_impl("Machine", None, w)
+        body = F.hir(fn)["body"]
+        seen = {}
+        for x in walk(body):
+            if x["k"] == "Assign":
+                ch = field_chain(x["lhs"])
+                if len(ch) >= 2 and ch[-2] == "prelude":
+                    seen.setdefault(ch[-1], []).append(resolve(x["rhs"], body))
+        for f, want in WRITER_SOURCES.items():
+            got = seen.get(f, [])
+            n += 1
+            R.ob("%s:orframe-writer:%s:saves:%s<-%s" % (prefix, w, f, ".".join(want)), len(got) == 1 and got[0][-len(want):] == want,
+                 "%s must save OrFramePrelude.%s from %s; found %s" % (w, f, ".".join(want), [".".join(g) for g in got]), F.where(fn))
+        for f in ("bp", "boip", "biip"):
+            got = seen.get(f, [])
+            n += 1
+            R.ob("%s:orframe-writer:%s:saves:%s" % (prefix, w, f), len(got) == 1, "%s assigns OrFramePrelude.%s exactly once" % (w, f), F.where(fn))
+        # the alternative to resume at is computed from the current instruction pointer
+        bp = [x for x in walk(body) if x["k"] == "Assign" and field_chain(x["lhs"])[-2:] == ["prelude", "bp"]]
+        n += 1
+        R.ob("%s:orframe-writer:%s:bp-from-p" % (prefix, w), len(bp) == 1 and any(y["k"] == "Field" and y["name"] == "p" for y in walk(bp[0]["rhs"])),
+             "%s must compute the retry address from machine_st.p" % w, F.where(fn))
+    for r, (pops, unwinds) in RESTORERS.items():
+        if r in ("trust", "trust_me"):
+            continue
+        fn = F.find_impl("Machine", None, r)
+        body = F.hir(fn)["body"]
+        seen = {}
+        for x in walk(body):
+            if x["k"] == "Assign":
+                ch = field_chain(x["lhs"])
+                if len(ch) >= 2 and ch[-2] == "machine_st":
+                    seen.setdefault(ch[-1], []).append(resolve(x["rhs"], body))
+        table = dict(RESTORE_SOURCES)
+        if pops:
+            table["b"] = "b"
+        for reg, fld in table.items():
+            got = seen.get(reg, [])
+            n += 1
+            R.ob("%s:orframe-restorer:%s:%s<-prelude.%s" % (prefix, r, reg, fld), bool(got) and all(g[-2:] == ["prelude", fld] for g in got),
+                 "%s must restore machine_st.%s from OrFramePrelude.%s; found %s" % (r, reg, fld, [".".join(g) for g in got]), F.where(fn))
+        # cut marks
+        for c in walk(body):
+            if c["k"] == "MethodCall" and c["name"] == "truncate" and c.get("args"):
+                tgt = (field_chain(c["recv"]) or ["?"])[-1]
+                arg = resolve(c["args"][0], body)
+                want = {"heap": [["prelude", "h"]], "trail": [["machine_st", "tr"], ["prelude", "tr"]], "stack": [["machine_st", "b"]]}.get(tgt)
+                if want is None:
+                    continue
+                n += 1
+                R.ob("%s:orframe-restorer:%s:truncate-%s-mark" % (prefix, r, tgt), any(arg[-2:] == w for w in want),
+                     "%s cuts the %s back to %s; expected %s" % (r, tgt, ".".join(arg), " or ".join(".".join(w) for w in want)), F.where(fn))
+        rs = calls_named(body, r"reset_attr_var_state$")
+        if rs:
+            arg = resolve(rs[0]["args"][0], body) if rs[0].get("args") else []
+            n += 1
+            R.ob("%s:orframe-restorer:%s:attr-var-queue-mark" % (prefix, r), arg[-2:] == ["prelude", "attr_var_queue_len"],
+                 "%s must reset the attributed-variable queue to OrFramePrelude.attr_var_queue_len; found %s" % (r, ".".join(arg)), F.where(fn))
+    return n
+
+
 def check(F, R, prefix):
     fields = prelude_fields(F)
     R.notes.append("OrFramePrelude fields: %s" % fields)
-    n = 0
+    n = check_sources(F, R, prefix)
     for w in WRITERS:
         fn = F.find_impl("Machine", None, w)
         h = F.hir(fn)
